@@ -1340,7 +1340,7 @@ func gen(r *Rng, tier string, emit func(Sx)) {
 func main() {
 	Main(Family{
 		ID:   "C17",
-		Rule: "the c17 generator (random linear histories of account creation / modification / deletion with storage / destruct-and-recreate / re-creation / undo transitions as real trie node sets over 2-5 accounts x 2-4 slots, up to 60 (quick) / 200 (thorough) operations; StateHistory limit 0..8 forcing tail pruning, WriteBufferSize 0 or 64 MiB, maxDiffLayers 1..128; Commit, cap, Recover followed by a different fork) with state history indexing enabled, plus historical read batches: HistoricReader at sampled canonical roots incl. the ones around the freezer tail and the disk layer, roots of abandoned forks and unknown roots, then AccountRLP / Storage of every key of the universe; long-lived reader handles: opened at several points and used at arbitrary later points - after every movement of the disk layer, across rollbacks and forks regrown with different contents to exactly the previous length, shorter and longer, across tail pruning - they must refuse or still answer for their own root, and answer only while that root is a retained canonical ancestor; a third of the cases is a dedicated reader-lifecycle scenario; synchronous index-pruner passes with the real tail followed by reads of every key at the oldest retained root; Recover down to state id 0 included. Non-trivial: some historical read succeeded with a value different from the disk layer's current value; distinct = distinct case line.",
+		Rule: "the c17 generator (random linear histories of account creation / modification / deletion with storage / destruct-and-recreate / re-creation / undo transitions as real trie node sets over 2-5 accounts x 2-4 slots, up to 60 (quick) / 200 (thorough) operations; StateHistory limit 0..8 forcing tail pruning, WriteBufferSize 0 or 64 MiB, maxDiffLayers 1..128; Commit, cap, Recover followed by a different fork) with state history indexing enabled, plus historical read batches: HistoricReader at sampled canonical roots incl. the ones around the freezer tail and the disk layer, roots of abandoned forks and unknown roots, then AccountRLP / Storage of every key of the universe; long-lived reader handles: opened at several points and used at arbitrary later points - after every movement of the disk layer, across rollbacks and forks regrown with different contents to exactly the previous length, shorter and longer, across tail pruning - they must refuse or still answer for their own root, and answer only while that root is a retained canonical ancestor; a third of the cases is a dedicated reader-lifecycle scenario; synchronous index-pruner passes with the real tail followed by reads of every key at the oldest retained root; Recover down to state id 0 included. Volume: 1200 cases quick / 10000 thorough, every third a reader-lifecycle scenario. Non-trivial: some historical read succeeded with a value different from the disk layer's current value; distinct = distinct case line.",
 		Gen:  gen,
 		Run:  run,
 	})
